@@ -15,6 +15,7 @@ pub enum AnyArr {
     V3([Tok; 3]),
     V5([Tok; 5]),
     V8([Tok; 8]),
+    V33([Tok; 33]),
 }
 pub enum AnyCons {
     V0(ArrayConsumer<Tok, 0>),
@@ -23,6 +24,7 @@ pub enum AnyCons {
     V3(ArrayConsumer<Tok, 3>),
     V5(ArrayConsumer<Tok, 5>),
     V8(ArrayConsumer<Tok, 8>),
+    V33(ArrayConsumer<Tok, 33>),
 }
 pub enum AnyBuild {
     V0(ArrayBuilder<Tok, 0>),
@@ -31,6 +33,7 @@ pub enum AnyBuild {
     V3(ArrayBuilder<Tok, 3>),
     V5(ArrayBuilder<Tok, 5>),
     V8(ArrayBuilder<Tok, 8>),
+    V33(ArrayBuilder<Tok, 33>),
 }
 
 #[macro_export]
@@ -43,6 +46,7 @@ macro_rules! on_any {
             $E::V3($x) => $body,
             $E::V5($x) => $body,
             $E::V8($x) => $body,
+            $E::V33($x) => $body,
         }
     };
 }
@@ -56,6 +60,7 @@ macro_rules! conv_any {
             $E1::V3($x) => $E2::V3($body),
             $E1::V5($x) => $E2::V5($body),
             $E1::V8($x) => $E2::V8($body),
+            $E1::V33($x) => $E2::V33($body),
         }
     };
 }
@@ -69,7 +74,8 @@ macro_rules! new_any {
             2 => $E::V2($f::<2>($($args),*)),
             3 => $E::V3($f::<3>($($args),*)),
             5 => $E::V5($f::<5>($($args),*)),
-            _ => $E::V8($f::<8>($($args),*)),
+            8 => $E::V8($f::<8>($($args),*)),
+            _ => $E::V33($f::<33>($($args),*)),
         }
     };
 }
@@ -504,6 +510,109 @@ pub fn zst_scenario<const N: usize>(front: usize, back: usize, clone: bool) -> R
     let want_live = rejected_pushes - extra_drops as i64;
     if live != want_live || drops != (N + cloned) as u64 + extra_drops {
         return Err(format!("ZST ledger: live {live} (expected {want_live}), drops {drops} (expected {})", (N + cloned) as u64 + extra_drops));
+    }
+    Ok(())
+}
+
+/// 64-byte, 64-aligned element with Drop: identity + derived payload, counted in the ledger
+#[repr(align(64))]
+pub struct BigTok {
+    id: u64,
+    pad: [u64; 7],
+}
+fn big_pad(id: u64) -> [u64; 7] {
+    core::array::from_fn(|i| id.wrapping_mul(0x9E37_79B9_7F4A_7C15).rotate_left(i as u32 * 9) ^ i as u64)
+}
+impl BigTok {
+    fn fresh(id: u64) -> BigTok {
+        with(|l| l.zst_live += 1);
+        BigTok { id, pad: big_pad(id) }
+    }
+    fn ok(&self) -> bool {
+        self.pad == big_pad(self.id) && (self as *const BigTok as usize) % 64 == 0
+    }
+}
+impl Clone for BigTok {
+    fn clone(&self) -> BigTok {
+        BigTok::fresh(self.id + 1000)
+    }
+}
+impl Drop for BigTok {
+    fn drop(&mut self) {
+        let bad = self.pad != big_pad(self.id);
+        with(|l| {
+            l.zst_live -= 1;
+            l.zst_drops += 1;
+            if bad {
+                l.payload_bad += 1;
+            }
+        });
+    }
+}
+
+/// takes from both ends, optional clone, builder round trip, build, drop - for a large over-aligned element
+pub fn big_scenario<const N: usize>(front: usize, back: usize, clone: bool) -> Result<(), String> {
+    with(|l| {
+        l.zst_live = 0;
+        l.zst_drops = 0;
+    });
+    let arr: [BigTok; N] = core::array::from_fn(|i| BigTok::fresh(i as u64));
+    let mut model: std::collections::VecDeque<u64> = (0..N as u64).collect();
+    let mut c = ArrayConsumer::new(arr);
+    let mut held: Vec<BigTok> = Vec::new();
+    for _ in 0..front {
+        let (g, e) = (c.next().map(ManuallyDrop::into_inner), model.pop_front());
+        if g.as_ref().map(|t| (t.id, t.ok())) != e.map(|i| (i, true)) {
+            return Err(format!("big consumer next: id {:?}, expected {:?}", g.as_ref().map(|t| t.id), e));
+        }
+        held.extend(g);
+    }
+    for _ in 0..back {
+        let (g, e) = (c.next_back().map(ManuallyDrop::into_inner), model.pop_back());
+        if g.as_ref().map(|t| (t.id, t.ok())) != e.map(|i| (i, true)) {
+            return Err(format!("big consumer next_back: id {:?}, expected {:?}", g.as_ref().map(|t| t.id), e));
+        }
+        held.extend(g);
+    }
+    let ids: Vec<u64> = c.as_slice().iter().map(|t| t.id).collect();
+    if ids != model.iter().copied().collect::<Vec<_>>() || c.as_slice().iter().any(|t| !t.ok()) {
+        return Err(format!("big consumer as_slice: {:?}, expected {:?}", ids, model));
+    }
+    let mut cloned = 0;
+    if clone {
+        let c2 = c.clone();
+        cloned = model.len();
+        let ids2: Vec<u64> = c2.as_slice().iter().map(|t| t.id).collect();
+        if ids2 != model.iter().map(|i| i + 1000).collect::<Vec<_>>() || c2.as_slice().iter().any(|t| !t.ok()) {
+            return Err(format!("big consumer clone: {:?}", ids2));
+        }
+        drop(c2);
+    }
+    // everything left goes through a builder, then build
+    while let Some(t) = c.next() {
+        held.push(ManuallyDrop::into_inner(t));
+    }
+    c.assert_is_empty();
+    let order: Vec<u64> = held.iter().map(|t| t.id).collect();
+    let mut b = ArrayBuilder::<BigTok, N>::new();
+    for t in held.drain(..) {
+        b.push(t);
+    }
+    if !b.is_full() || b.as_slice().iter().map(|t| t.id).collect::<Vec<_>>() != order {
+        return Err("big builder contents differ from the push order".into());
+    }
+    let out: [BigTok; N] = b.build();
+    if out.iter().map(|t| t.id).collect::<Vec<_>>() != order || out.iter().any(|t| !t.ok()) {
+        return Err("big builder build(): wrong order or altered payload".into());
+    }
+    let mapped: [BigTok; N] = konst::array::map_!(out, |t| t);
+    if mapped.iter().map(|t| t.id).collect::<Vec<_>>() != order || mapped.iter().any(|t| !t.ok()) {
+        return Err("map_! over big elements: wrong order or altered payload".into());
+    }
+    drop(mapped);
+    let (live, drops, bad) = with(|l| (l.zst_live, l.zst_drops, l.payload_bad));
+    if live != 0 || drops != (N + cloned) as u64 || bad != 0 {
+        return Err(format!("big ledger: live {live} (expected 0), drops {drops} (expected {}), altered payloads {bad}", N + cloned));
     }
     Ok(())
 }
